@@ -132,18 +132,25 @@ CLAIMED = {
        "what `match` and `if x: T = e` test at run time) and inhabits it BY CONTENTS (mutual induction on fuel over expressions, "
        "lists, statements, sequences and match arms, carrying the invariant that stored array tags are well-formed and lie "
        "above their elements' tags; unions through concat's upper-bound / least laws, transitivity of matches and matches_sound). "
-       "The checker model is tied to the implementation by its own stream: 1500 generated fragment programs per quick run over "
-       "16 opaque free variables (`p := *(mut T v)`, so nothing folds), half of them ill-typed, a third with match / if-set - same "
-       "verdict and == static type. STAGE 3 (Thm/C01Fn) adds FUNCTIONS: the model Model/CheckF (anonymous functions, declarations "
+       "The checker model is tied to the implementation by its own stream: 3000 generated fragment programs per quick run over "
+       "16 opaque free variables (`p := *(mut T v)`, so nothing folds; control flow hoisted into statement positions, where the grammar has it), "
+       "half of them ill-typed, a third with match / if-set - same verdict and == static type. STAGE 3 (Thm/C01Fn) adds FUNCTIONS: the model Model/CheckF (anonymous functions, declarations "
        "recursive through their own name, calls on operands of a function type with the argument test, `return` with the "
-       "WrongReturn and MissingReturn rules; its own correspondence stream of 1000 programs with functions) and ONE theorem "
+       "WrongReturn and MissingReturn rules; its own correspondence stream of 2500 programs with functions) and ONE theorem "
        "for soundness, return typing and progress - eval_outcome / program_outcome: the evaluator ends in a value whose tag "
        "lies below the static type (hence in the type by contents), a documented error, fuel exhaustion, or a `return` of a "
        "value of the enclosing function's result type; never `wrong`, never an escaping break / continue. The value invariant "
        "is an inductive predicate under which a function value is good when the model accepted its body in some static "
        "environment its captured values respect; calls use contravariance of matches on parameters, the callee environment "
        "lemma, and the fact that a statement of type `!` yields no value (so a body falls off its end only when () is a result). "
-       "Outside the fragment (cells, loops, structs, iterators) the "
+       "STAGE 4 (Thm/C01StA..D) adds MUTABLE CELLS AND LOOPS: the model Model/CheckS (`mut T e`, `*c`, `c = v`, the eleven `c op= v`, "
+       "`loop`, `while`, `while x: T = e`, `break` / `continue` only inside a loop body and never across a function boundary; stream of 2500 "
+       "programs with cells and loops) and the outcome theorem over a STORE TYPING: from any store that respects a store typing S, a typed "
+       "expression ends with a store that respects an extension of S and a value of its type (by tag and by contents), or in a documented error, "
+       "fuel, a well-typed `return`, or - inside a loop body only - break / continue (eval_outcome); every cell of the final store holds a value "
+       "of the cell's declared type (cells_keep_their_types); whole programs from the empty store (program_outcome). The proof uses that cell "
+       "types are invariant under matches, so a cell reached at static type `mut c` has a declared type == c. "
+       "Outside the fragment (structs, iterators, `for`, inferred `mut e`, unions of cell / function types as operands) the "
        "evaluator-level statement is NOT proved: for the "
        "running code it is decided by the in-crate monitor (feature `verif`), which judges the result of every executed "
        "instruction (~140k per quick run) against that instruction's own return_type() by tag and by contents, on generated "
@@ -151,7 +158,7 @@ CLAIMED = {
   note="Lean kernel; stage-1 theorems are about the hand models Ty / Val.hasTy / Spec.binScalar (tied by the type, scalar and prog "
        "streams); functions and cells are outside matches_sound_partial; the monitor is code added to /repo under the guard and "
        "exempts the three placeholder-typed helper closures (MAP, FILTER, ITER bodies).",
-  technique="Lean 4 proof (value typing, subtype soundness, evaluator-level soundness of a checker model for the first-order fragment) + checker-model correspondence + in-crate soundness monitor on generated programs", ref="DESIGN.md §6 C01"),
+  technique="Lean 4 proof (value typing, subtype soundness, evaluator-level soundness of a checker model for expressions, functions, mutable cells and loops) + checker-model correspondence + in-crate soundness monitor on generated programs", ref="DESIGN.md §6 C01"),
  "C02": dict(
   text="Lean 4 theorems about Spec, where everything the implementation can only answer with a panic is the outcome `wrong`: on "
        "the operand kinds the checker admits, no binary / prefix operator, index or slice is `wrong` (only the documented errors); "
@@ -165,13 +172,16 @@ CLAIMED = {
        "succeeds on the scrutinee's tag). STAGE 3 (Thm/C01Fn, shared with C01) extends this to FUNCTIONS - declarations, recursion, "
        "calls, `return`: eval_outcome states that a typed program ends in a value of its type, a documented error, fuel "
        "exhaustion or a well-typed `return`, and NOTHING else: no `wrong` (no panic), no break / continue escaping a function. "
-       "Progress outside the fragment (cells, loops, iterators, structs) is NOT "
+       "STAGE 4 (Thm/C01StD, shared with C01) extends it to MUTABLE CELLS AND LOOPS over a store typing (program_outcome): no read or write of "
+       "a cell that does not exist, no assignment to a non-cell, no compound assignment whose operator meets operands of the wrong kind, no "
+       "break / continue outside a loop - a typed program ends in a value of its type, a documented error or fuel exhaustion. "
+       "Progress outside the fragment (iterators, structs, `for`) is NOT "
        "proved: for the running code it is decided "
        "by panic hook + catch_unwind + worker exit status on generated programs, scoping / control-flow templates, iterator "
        "pipelines, assignment histories and host calls (admissible vectors must run, inadmissible ones must be rejected).",
   note="Lean kernel; Spec is hand-written (tied by the prog stream); resource exhaustion is outside the claim and ends runs as "
        "`inconclusive` through the fuel hook; panics inside third-party crates are observed, not modelled (except slyce's index conversion).",
-  technique="Lean 4 proof (no-wrong lemmas, signal containment, progress of the first-order fragment incl. match coverage) + panic oracle on generated programs and host calls", ref="DESIGN.md §6 C02"),
+  technique="Lean 4 proof (no-wrong lemmas, signal containment, progress of the fragment with functions, cells and loops incl. match coverage) + panic oracle on generated programs and host calls", ref="DESIGN.md §6 C02"),
  "C04": dict(
   text="Lean 4 theorems about Spec: every rewrite rule the Recreate pass applies is an equivalence (same value, same store, same "
        "signal): an operator on two constants is the operator's own exec and touches no store; `true && b` = b, `false && b` = "
